@@ -22,13 +22,13 @@ theorem putKeys_append (a b : List Step) : putKeys (a ++ b) = putKeys a ++ putKe
 theorem putKeys_plugins (pf : Int × Int) (b : Block) : putKeys (pluginSteps true pf b) = ownKeys b := by
   simp [pluginSteps, ownKeys, putKeys_append, feeSteps, putKeys]
 
-/-- **Index plugins (txindex, addrindex incl. the per-address counters, addrfeeindex, fee).** For every
-store `m` and every block `b` — any number of transactions, any repetition of sender/recipient addresses
-(self-transfers, repeated addresses), any receipt types — whose own keys are unused in `m`: writing the add list
-and then the del list (computed, as in the code, against the database that contains the block) restores every
-key observationally. -/
-theorem del_after_add_id_plugins (m : Store) (b : Block) (A : List KV)
-    (hA : pluginsAdd m b = some A) (hfresh : ∀ k ∈ ownKeys b, get m k = none) (k : Key) :
+/-- **Index plugins, key by key (txindex, addrindex incl. the per-address counters, addrfeeindex, fee).** For every
+store `m`, every block `b` (any number of transactions, any repetition of sender/recipient addresses, self-transfers,
+any receipt types) and every key `k`: writing the add list and then the del list (computed, as in the code, against
+the database that contains the block) restores `k` observationally — provided `k`, IF it is one of the block's own
+keys, was unused before. Keys the block does not own need no hypothesis at all. -/
+theorem del_after_add_id_plugins_key (m : Store) (b : Block) (A : List KV)
+    (hA : pluginsAdd m b = some A) (k : Key) (hfresh : k ∈ ownKeys b → get m k = none) :
     obsEq (get (applyKVs (applyKVs m A) (pluginsDel (applyKVs m A) b)) k) (get m k) := by
   unfold pluginsAdd at hA
   cases hr : readFee (get m (Key.totalFee b.parent)) with
@@ -42,7 +42,56 @@ theorem del_after_add_id_plugins (m : Store) (b : Block) (A : List KV)
     have hm := mirror_plugins pf (0, 0) b
     cases hc : k.isCounter with
     | true => exact Or.inl (mirror_counter hm k hc)
-    | false => exact Or.inr (mirror_slot m hm (by rw [putKeys_plugins]; exact hfresh) k hc)
+    | false => exact Or.inr (mirror_slot m hm k (by rw [putKeys_plugins]; exact hfresh) hc)
+
+/-- **partial**: every key is restored when ALL own keys of the block were unused — including the short-hash keys
+`STX:hash[:8]`, which duplicate checking does NOT guarantee (it compares full hashes): the added hypothesis is "no
+transaction already on the chain shares its first 8 hash bytes with a transaction of the block". -/
+theorem del_after_add_id_plugins_partial (m : Store) (b : Block) (A : List KV)
+    (hA : pluginsAdd m b = some A) (hfresh : ∀ k ∈ ownKeys b, get m k = none) (k : Key) :
+    obsEq (get (applyKVs (applyKVs m A) (pluginsDel (applyKVs m A) b)) k) (get m k) :=
+  del_after_add_id_plugins_key m b A hA k (hfresh k)
+
+/-- what a chain does guarantee for a new block: its full transaction keys, slots and fee-total key are unused
+(duplicate checking on full hashes, removal of all higher blocks) — nothing about the 8-byte short keys. -/
+def FreshExceptStx (m : Store) (b : Block) : Prop := ∀ k ∈ ownKeys b, k.isStx = false → get m k = none
+
+/-- every key other than a short-hash key is restored under what the chain guarantees. -/
+theorem del_after_add_id_plugins_except_stx (m : Store) (b : Block) (A : List KV)
+    (hA : pluginsAdd m b = some A) (hfresh : FreshExceptStx m b) (k : Key) (hk : k.isStx = false) :
+    obsEq (get (applyKVs (applyKVs m A) (pluginsDel (applyKVs m A) b)) k) (get m k) :=
+  del_after_add_id_plugins_key m b A hA k (fun h => hfresh k h hk)
+
+/-- the statement the property asks for: restoration of EVERY key under what the chain guarantees. -/
+def PluginsFullStatement : Prop :=
+  ∀ (m : Store) (b : Block) (A : List KV), pluginsAdd m b = some A → FreshExceptStx m b →
+    ∀ k, obsEq (get (applyKVs (applyKVs m A) (pluginsDel (applyKVs m A) b)) k) (get m k)
+
+/-- transaction A (hash 1,2,3,4,5,6,7,8,9) is on the chain; the block carries B (hash 1,2,3,4,5,6,7,8,77). -/
+def exStxStore : Store := [(Key.stx [1,2,3,4,5,6,7,8], .blob [49]), (Key.tx true [1,2,3,4,5,6,7,8,9], .blob [5])]
+def exStxTx : Tx := { hash := [1,2,3,4,5,6,7,8,77], sender := [65], to := [66], fee := 1, rty := 2, txres := [6], info := [2], feeinfo := [3] }
+def exStxBlock : Block := { height := 9, hash := [8], parent := [9], quick := true, txs := [exStxTx] }
+
+/-- **the full statement is false of the code**: `txindex` writes `STX:hash[:8]` for every transaction and
+`ExecDelLocal` deletes it; removing a block whose transaction B shares its first 8 hash bytes with a transaction A
+that stays on the chain deletes A's short key — and with quickIndex `BlockStore.HasTx(A)` then answers false
+(duplicate detection for A is off). Replayed on the implementation with a real 8-byte hash-prefix collision. -/
+theorem plugins_full_false : ¬ PluginsFullStatement := by
+  intro h
+  have hA : pluginsAdd exStxStore exStxBlock = some (run exStxStore (pluginSteps true (0, 0) exStxBlock)) := by decide
+  have hf : FreshExceptStx exStxStore exStxBlock := by unfold FreshExceptStx; decide
+  have h1 := h exStxStore exStxBlock _ hA hf (Key.stx [1,2,3,4,5,6,7,8])
+  have e : get (applyKVs (applyKVs exStxStore (run exStxStore (pluginSteps true (0, 0) exStxBlock)))
+      (pluginsDel (applyKVs exStxStore (run exStxStore (pluginSteps true (0, 0) exStxBlock))) exStxBlock))
+      (Key.stx [1,2,3,4,5,6,7,8]) = none := by decide
+  have e2 : get exStxStore (Key.stx [1,2,3,4,5,6,7,8]) = some (.blob [49]) := by decide
+  rw [e, e2] at h1
+  unfold obsEq at h1
+  rcases h1 with h1 | ⟨_, h1⟩
+  · simp at h1
+  · rcases h1 with h1 | ⟨v, hv, he⟩
+    · simp at h1
+    · simp at hv; subst hv; simp [Val.isEmptyEnc] at he
 
 /-- non-vacuity: a store with history (a counter at 3, a parent fee total) and a block with a self-transfer and a
 repeated address satisfy the hypotheses. -/
@@ -82,10 +131,11 @@ theorem regression_coins_failed_transfer :
       (run (applyKVs [] (run [] (coinsSteps true [exFailed]))) (coinsSteps false [exFailed]))) (Key.recv [66]) = none := by
   decide
 
-/-- **Whole block**: plugins + coins hooks in the order of `procExecAddBlock`/`procExecDelBlock`
-(per-transaction removal in reverse order), for a block on top of a chain (own keys unused, no successful genesis
-action). -/
-theorem del_after_add_id_block (m : Store) (b : Block) (A : List KV)
+/-- **Index plugins + coins hooks of a block, partial** (the MVCC plugin and manage's local data are not part of
+`blockSteps`): the order of `procExecAddBlock`/`procExecDelBlock` (per-transaction removal in reverse order), for a
+block whose own keys — short-hash keys included, see `plugins_full_false` — are unused and without a successful
+genesis action. -/
+theorem del_after_add_id_block_partial (m : Store) (b : Block) (A : List KV)
     (hA : blockAdd m b = some A) (hfresh : ∀ k ∈ ownKeys b, get m k = none) (H : NoGenesisOk b.txs) (k : Key) :
     obsEq (get (applyKVs (applyKVs m A) (blockDel (applyKVs m A) b)) k) (get m k) := by
   unfold blockAdd at hA
@@ -102,7 +152,7 @@ theorem del_after_add_id_block (m : Store) (b : Block) (A : List KV)
     cases hc : k.isCounter with
     | true => exact Or.inl ((mirror_counter hm k hc).append (coins_counter k b.txs H))
     | false =>
-      exact Or.inr ((mirror_slot m hm (by rw [putKeys_plugins]; exact hfresh) k hc).append_nil
+      exact Or.inr ((mirror_slot m hm k (by rw [putKeys_plugins]; exact hfresh k) hc).append_nil
         (proj_eq_nil_of_counter k _ hc (coinsSteps_shape true b.txs))
         (proj_eq_nil_of_counter k _ hc (coinsSteps_shape false b.txs)))
 
@@ -180,5 +230,18 @@ theorem mvcc_del_after_add_id (m : Store) (kvs : List (Bytes × Bytes)) (hash pr
     rw [this]; exact obsEq_refl _
   · rw [get_applyKVs_not_mem _ _ _ hm, get_applyKVs_not_mem _ _ _ (fun h => hm ((hkeysA k hk).mp h))]
     exact obsEq_refl _
+
+/-- non-vacuity of `mvcc_del_after_add_id`: version 1 on top of version 0. (A block with an EMPTY state KV set is outside
+the theorem: its key list is stored as an empty value, which reads as not found, and `DelMVCC` panics — `mvccDel` = panic.) -/
+example :
+    let m : Store := [(Key.mvVer 0, .blob [1])]
+    (match mvccAdd m [([3], [4])] [2] [1] false 1 with
+     | .ok A => (match mvccDel (applyKVs m A) [2] 1 with | .ok _ => true | .panic => false)
+     | .panic => false) = true ∧
+    get m (Key.mvHash [2]) = none ∧ get m (Key.mvVer 1) = none ∧ get m (Key.mvData [3] 1) = none ∧
+    (match mvccAdd [(Key.mvVer 0, .blob [1])] [] [2] [1] false 1 with
+     | .ok A => (match mvccDel (applyKVs [(Key.mvVer 0, .blob [1])] A) [2] 1 with | .ok _ => true | .panic => false)
+     | .panic => true) = false := by
+  decide
 
 end C14
